@@ -17,7 +17,11 @@ Inductive case :=
    kept) or obj.SaveAll (distinct names, [keep] = true) into a fresh directory -> obj.Load, groups given in the order of
    the first Load; None: the second stage is not possible (equal names cannot be keys of SaveAll's map) *)
 | CLoad (file : list line) (fs : fsys) (impl_load1 : res (list mesh)) (keep : bool)
-        (impl_load2 : option (res (list mesh))).
+        (impl_load2 : option (res (list mesh)))
+(* size ladder (2^10+1 .. 2^16+1 faces): judged harness-side by an exact Go re-implementation of file_groups / obs /
+   obs_written (harness/cmd/c05/ladder.go; verdict = GoFail); the term only records the size, no obligation here.
+   The bottom rung is also evaluated as ordinary CWrite / CFile cases. *)
+| CLadder (faces groups : N).
 
 (* Only what the property talks about is compared (a rewrite of the Go code that keeps it must stay quiet):
    a text by its validity, its direct meaning and its mtllib names - not line by line; a reader result by the
